@@ -54,6 +54,13 @@ CHECKS["C08"] = dict(
    note="Trusted: ref/wf predicate and ref/refv. Error codes are not compared; statement-silent combinations are Unspecified (listed in the evidence assumptions).",
    design="4/C08")
 
+CHECKS["C04"] = dict(
+   category="exploration", engine="B small-scope enumeration of slots x contexts x single-rule corruptions",
+   technique="exhaustive enumeration of annotated slots in nesting contexts with every single-rule corruption of the example; renderer offset map as position oracle",
+   text="34 annotated slots (every rule family incl. formats, enum, or, type references, item counts) x 13 nesting contexts x every single-rule corruption of the example: Check must fail and report the byte offset of the corrupted value; conversely all shapes <= 3 (4) nodes with every scalar leaf replaced by every slot, and every slot in every context: whenever Check succeeds, validating the example text succeeds.",
+   note="Trusted: the renderer's offset map. Error codes are not asserted; positions inside added types are not asserted.",
+   design="4/C04")
+
 NOT_YET = {
 }
 
